@@ -30,6 +30,7 @@ ATOMS = [
     (b'OTHERQ', 'other-quote'), (b'\x01', 'raw-01'), (b'\x07', 'raw-07'), (b'\x0e', 'raw-0e'), (b'\x0f', 'raw-0f'),
     (b'\x7f', 'raw-7f'), (b'\x80', 'raw-80'), (b'\xff', 'raw-ff'), (b'[', 'lbracket'), (b']', 'rbracket'),
     (b'-', 'minus'), (b'\t', 'raw-tab'), (b'\\z\n  ', 'esc-z-newline'), (b'\\z\r\n\t', 'esc-z-crlf'),
+    (b'\\\r\n', 'esc-newline-crlf'), (b'\\\r', 'esc-newline-cr'),
 ]
 
 
